@@ -105,3 +105,33 @@ def joinSp (l : List String) : String := " ".intercalate l
 def showNats (l : List Nat) : String := joinSp ((toString l.length) :: l.map toString)
 
 end SimVerif.Wire
+
+namespace SimVerif.Wire
+/-- largest `e` with `2^e ≤ x` for `x > 0` (search from a fuel bound) -/
+def log2Floor (x : Rat) : Int :=
+  if x ≤ 0 then 0 else
+  -- x = num/den: start from the bit lengths
+  let e0 : Int := (Nat.log2 x.num.natAbs : Int) - (Nat.log2 x.den : Int)
+  -- e0 is within 1 of the answer
+  if pow2 (e0 + 1) ≤ x then e0 + 1 else if pow2 e0 ≤ x then e0 else e0 - 1
+
+/-- round half to even on rationals -/
+def roundHalfEven (x : Rat) : Int :=
+  let f := x.floor
+  let r := x - f
+  if r < 1/2 then f else if r > 1/2 then f + 1 else (if f % 2 == 0 then f else f + 1)
+
+/-- IEEE-754 round-to-nearest-even of an exact rational to binary32 (normal range only; enough for the
+products modelled here). This is what an `f32` multiplication / addition returns for the exact result `x`. -/
+def roundF32 (x : Rat) : Rat :=
+  if x == 0 then 0 else
+  let a := rabs x
+  let e := log2Floor a
+  let q := pow2 (e - 23)
+  let m := roundHalfEven (a / q)
+  let r := (m : Rat) * q
+  if x < 0 then -r else r
+
+/-- `as i64` on a finite value: truncation toward zero -/
+def truncInt (x : Rat) : Int := if x ≥ 0 then x.floor else -((-x).floor)
+end SimVerif.Wire
